@@ -112,10 +112,10 @@ def analyze_accumulator(in_model, x, verbose=False):
       nbits = []
       for i in range(k.shape[-1]):
         # compute sum of positive weights
-        npp = np.sum(k[..., i] * (k[..., i] > 0)) + (b[i] > 0) * b[i]
+        npp = np.sum(k[..., i] * (k[..., i] > 0))
 
         # compute sum of negative weights
-        nnn = np.sum(k[..., i] * (k[..., i] < 0)) + (b[i] < 0) * b[i]
+        nnn = np.sum(k[..., i] * (k[..., i] < 0))
 
         # largest value is
         #   npp * largest positive - nnn * largest_negative or
@@ -124,8 +124,9 @@ def analyze_accumulator(in_model, x, verbose=False):
         x_min = x[layer.name][0]
         x_max = x[layer.name][1]
 
-        n1 = npp * (x_max > 0) * x_max + nnn * (x_min < 0) * x_min
-        n0 = - (nnn * (x_max > 0) * x_max + npp * (x_min < 0) * x_min)
+        # the bias is added once to the sum; it is not scaled by the inputs.
+        n1 = npp * (x_max > 0) * x_max + nnn * (x_min < 0) * x_min + b[i]
+        n0 = - (nnn * (x_max > 0) * x_max + npp * (x_min < 0) * x_min + b[i])
 
         if n1 > n0:
           nbits.append(n1)
